@@ -1,3 +1,234 @@
 import Driver.Common
-/-! stub: replaced by the owner of this driver -/
-def main : IO Unit := Driver.run () (fun s _ => (s, "bad-op"))
+import ScionVerif.Model.PathSet
+/-!
+Line-protocol driver for the path-manager model (C05/C06/C07).
+
+Tokens: a path is `fp:expiry:src:dst:ifaces:dpFirst:dpLast:allowed` (`n` = none; ifaces = `n`, `e` (empty)
+or `ia.id,ia.id,…`; `allowed` = what the real policy predicate says about this path); path lists are
+`;`-separated (`-` = empty); score maps are `fp=score,…` (`-` = empty, score = signed integer in units
+of 2^-149); fingerprint lists are `fp,fp,…`.
+
+Requests
+  init t0 src dst maxCached refetchInterval minRefetchDelay minExpiryThreshold maxIdle issueCacheSize
+       issueBroadcastSize dedupWindow swapThreshold backoffMax        → `ok valid=<0|1>`
+  maintain now (ok <paths> | enp | eot) sc0 sc1 ord backoff           → state line
+  report (xid ia if | icd ia in out | du routing (n|ia,in) | ptb | pp | fhu ia if) id ts → state line
+  deliver now sc                                                       → state line
+  send now                                                             → `cached=… path=… | state line`
+  matches (if ia (n|in) out | fh ia if | lh ia if | fp x) path        → true | false
+  hops path                                                            → none | ia.in.out,…
+  backoff minD maxD fNum fDen jitter attempt                           → lo hi
+-/
+open ScionVerif.PathMgr ScionVerif.Generated.PathMgr Driver
+
+structure DSt where
+  env : Env := { cfg := defaultCfg, src := 0, dst := 0, allowed := fun _ => false }
+  allowedTab : List Path := []
+  st : St := { nextRefetch := 0, nextIdle := 0 }
+  ready : Bool := false
+
+def optNat (s : String) : Option (Option Nat) :=
+  if s == "n" then some none else s.toNat?.map some
+
+def parseIface (s : String) : Option Iface :=
+  match s.splitOn "." with
+  | [a, b] => match a.toNat?, b.toNat? with
+    | some x, some y => some ⟨x, y⟩
+    | _, _ => none
+  | _ => none
+
+def allSome {α : Type} : List (Option α) → Option (List α)
+  | [] => some []
+  | none :: _ => none
+  | some x :: xs => (allSome xs).map (x :: ·)
+
+def parseIfaces (s : String) : Option (Option (List Iface)) :=
+  if s == "n" then some none
+  else if s == "e" then some (some [])
+  else (allSome ((s.splitOn ",").map parseIface)).map some
+
+/-- path token → (path, allowed flag) -/
+def parsePath (s : String) : Option (Path × Bool) :=
+  match s.splitOn ":" with
+  | [fp, ex, src, dst, ifs, f, l, a] =>
+    match fp.toNat?, optNat ex, src.toNat?, dst.toNat?, parseIfaces ifs, optNat f, optNat l with
+    | some fp, some ex, some src, some dst, some ifs, some f, some l =>
+      if a == "1" then some (⟨fp, ex, src, dst, ifs, f, l⟩, true)
+      else if a == "0" then some (⟨fp, ex, src, dst, ifs, f, l⟩, false)
+      else none
+    | _, _, _, _, _, _, _ => none
+  | _ => none
+
+def parsePaths (s : String) : Option (List (Path × Bool)) :=
+  if s == "-" then some [] else allSome ((s.splitOn ";").map parsePath)
+
+def parseInt (s : String) : Option Int :=
+  if s.startsWith "-" then (s.drop 1).toNat?.map (fun n => -(n : Int)) else s.toNat?.map (fun n => (n : Int))
+
+def parseScores (s : String) : Option (List (Nat × Int)) :=
+  if s == "-" then some []
+  else allSome ((s.splitOn ",").map (fun kv => match kv.splitOn "=" with
+    | [k, v] => match k.toNat?, parseInt v with
+      | some k, some v => some (k, v)
+      | _, _ => none
+    | _ => none))
+
+def parseFps (s : String) : Option (List Nat) :=
+  if s == "-" then some [] else allSome ((s.splitOn ",").map (·.toNat?))
+
+def scoreFn (m : List (Nat × Int)) : Nat → Int := fun fp => ((m.find? (·.1 == fp)).map (·.2)).getD 0
+
+def covers (m : List (Nat × Int)) (fps : List Nat) : Bool := fps.all (fun f => m.any (·.1 == f))
+
+def fpExp (p : Path) : String :=
+  s!"{p.fp}/" ++ (match p.expiry with | some e => toString e | none => "n")
+
+def errStr : Option FetchErr → String
+  | none => "n" | some .noPaths => "np" | some .other => "ot"
+
+def b01 (b : Bool) : String := if b then "1" else "0"
+
+def stateLine (s : St) : String :=
+  let cached := if s.cached.isEmpty then "-" else ",".intercalate (s.cached.map fpExp)
+  let act := match s.active with | some a => fpExp a | none => "n"
+  s!"st {cached} a={act} nr={s.nextRefetch} ni={s.nextIdle} f={s.failed} init={b01 s.initialized} " ++
+  s!"err={errStr s.err} ex={b01 s.exited} bad={b01 s.bad} pend={s.pending.length} " ++
+  s!"ic={s.im.cache.length} if={s.im.fifo.length} used={b01 s.used}"
+
+def handoutStr : Option Path → String
+  | none => "none" | some p => "path:" ++ fpExp p
+
+def pathResStr : PathRes → String
+  | .ok p => "ok:" ++ fpExp p
+  | .err .noPaths => "err:np" | .err .other => "err:ot" | .wait => "wait"
+
+def parseTarget : List String → Option Target
+  | ["if", ia, ing, eg] => match ia.toNat?, optNat ing, eg.toNat? with
+    | some ia, some ing, some eg => some (.interface ia ing eg)
+    | _, _, _ => none
+  | ["fh", ia, i] => match ia.toNat?, i.toNat? with
+    | some ia, some i => some (.firstHop ia i)
+    | _, _ => none
+  | ["lh", ia, i] => match ia.toNat?, i.toNat? with
+    | some ia, some i => some (.lastHop ia i)
+    | _, _ => none
+  | ["fp", x] => x.toNat?.map .fullPath
+  | _ => none
+
+def parseKind : List String → Option Kind
+  | ["xid", ia, i] => match ia.toNat?, i.toNat? with
+    | some ia, some i => some (.extIfDown ia i)
+    | _, _ => none
+  | ["icd", ia, g, e] => match ia.toNat?, g.toNat?, e.toNat? with
+    | some ia, some g, some e => some (.intConnDown ia g e)
+    | _, _, _ => none
+  | ["du", r, p] =>
+    let routing := r == "1"
+    if r != "0" && r != "1" then none
+    else if p == "n" then some (.destUnreachable routing none)
+    else match p.splitOn "," with
+      | [a, b] => match a.toNat?, b.toNat? with
+        | some a, some b => some (.destUnreachable routing (some (a, b)))
+        | _, _ => none
+      | _ => none
+  | ["ptb"] => some .packetTooBig
+  | ["pp"] => some .parameterProblem
+  | ["fhu", ia, i] => match ia.toNat?, i.toNat? with
+    | some ia, some i => some (.firstHopUnreachable ia i)
+    | _, _ => none
+  | _ => none
+
+def hopsStr : Option (List Hop) → String
+  | none => "none"
+  | some hs => if hs.isEmpty then "-" else ",".intercalate (hs.map (fun h => s!"{h.ia}.{h.ingress}.{h.egress}"))
+
+def withAllowed (d : DSt) (ps : List (Path × Bool)) : DSt :=
+  let tab := ps.foldl (fun t pb => if pb.2 && !t.contains pb.1 then pb.1 :: t else t) d.allowedTab
+  { d with allowedTab := tab, env := { d.env with allowed := fun p => tab.contains p } }
+
+def doMaintain (d : DSt) (now : Nat) (resp : Resp) (flags : List (Path × Bool)) (sc0 sc1 : List (Nat × Int))
+    (ord : List Nat) (backoff : Nat) : DSt × String :=
+  let cachedFps := d.st.cached.map (·.fp)
+  let d := withAllowed d flags
+  -- scores are needed for every cached entry and for every fetched path that can become a candidate
+  let cand := match fetchFiltered d.env now resp with
+    | .ok f => f.map (·.fp)
+    | .error _ => []
+  if !(covers sc0 cachedFps && covers sc1 cachedFps && covers sc1 cand) then
+    (d, "bad-op missing-score")
+  else
+    let st := step d.env d.st (.maintain now resp (scoreFn sc0) (scoreFn sc1) ord backoff)
+    ({ d with st := st }, stateLine st)
+
+def dstep (d : DSt) : List String → DSt × String
+  | ["init", t0, src, dst, mc, ri, mrd, thr, mi, ics, ibs, dw, sw, bm] =>
+    match t0.toNat?, src.toNat?, dst.toNat?, mc.toNat?, ri.toNat?, mrd.toNat?, thr.toNat?, mi.toNat?,
+          ics.toNat?, ibs.toNat?, dw.toNat?, parseInt sw, bm.toNat? with
+    | some t0, some src, some dst, some mc, some ri, some mrd, some thr, some mi, some ics, some ibs,
+      some dw, some sw, some bm =>
+      let cfg : Cfg := { maxCached := mc, refetchInterval := ri, minRefetchDelay := mrd,
+                         minExpiryThreshold := thr, maxIdle := mi, issueCacheSize := ics,
+                         issueBroadcastSize := ibs, dedupWindow := dw, swapThreshold := sw,
+                         backoffMax := bm }
+      let env : Env := { cfg := cfg, src := src, dst := dst, allowed := fun _ => false }
+      ({ env := env, allowedTab := [], st := init env t0, ready := true }, s!"ok valid={b01 (validate cfg)}")
+    | _, _, _, _, _, _, _, _, _, _, _, _, _ => (d, "bad-op")
+  | ["maintain", now, "ok", ps, sc0, sc1, ord, bo] =>
+    if !d.ready then (d, "bad-op not-init") else
+    match now.toNat?, parsePaths ps, parseScores sc0, parseScores sc1, parseFps ord, bo.toNat? with
+    | some now, some ps, some sc0, some sc1, some ord, some bo =>
+      doMaintain d now (.ok (ps.map (·.1))) ps sc0 sc1 ord bo
+    | _, _, _, _, _, _ => (d, "bad-op")
+  | ["maintain", now, e, sc0, sc1, ord, bo] =>
+    if !d.ready then (d, "bad-op not-init") else
+    match now.toNat?, parseScores sc0, parseScores sc1, parseFps ord, bo.toNat? with
+    | some now, some sc0, some sc1, some ord, some bo =>
+      if e == "enp" then doMaintain d now .errNoPaths [] sc0 sc1 ord bo
+      else if e == "eot" then doMaintain d now .errOther [] sc0 sc1 ord bo
+      else (d, "bad-op")
+    | _, _, _, _, _ => (d, "bad-op")
+  | "report" :: rest =>
+    if !d.ready then (d, "bad-op not-init") else
+    match rest.reverse with
+    | ts :: id :: krev =>
+      match parseKind krev.reverse, id.toNat?, ts.toNat? with
+      | some k, some id, some ts =>
+        let st := step d.env d.st (.report k id ts)
+        ({ d with st := st }, stateLine st)
+      | _, _, _ => (d, "bad-op")
+    | _ => (d, "bad-op")
+  | ["deliver", now, sc] =>
+    if !d.ready then (d, "bad-op not-init") else
+    match now.toNat?, parseScores sc with
+    | some now, some sc =>
+      if !covers sc (d.st.cached.map (·.fp)) then (d, "bad-op missing-score") else
+      let st := step d.env d.st (.deliver now (scoreFn sc))
+      ({ d with st := st }, stateLine st)
+    | _, _ => (d, "bad-op")
+  | ["send", now] =>
+    if !d.ready then (d, "bad-op not-init") else
+    match now.toNat? with
+    | some now =>
+      let st := step d.env d.st (.send now)
+      ({ d with st := st },
+       s!"cached={handoutStr (sendCached st now)} path={pathResStr (sendPath st now)} | {stateLine st}")
+    | none => (d, "bad-op")
+  | "matches" :: rest =>
+    match rest.reverse with
+    | p :: trev =>
+      match parseTarget trev.reverse, parsePath p with
+      | some t, some (p, _) => (d, if t.matchesPath p then "true" else "false")
+      | _, _ => (d, "bad-op")
+    | _ => (d, "bad-op")
+  | ["hops", p] =>
+    match parsePath p with
+    | some (p, _) => (d, hopsStr p.hops)
+    | none => (d, "bad-op")
+  | ["backoff", minD, maxD, fNum, fDen, jit, att] =>
+    match minD.toNat?, maxD.toNat?, fNum.toNat?, fDen.toNat?, jit.toNat?, att.toNat? with
+    | some minD, some maxD, some fNum, some fDen, some jit, some att =>
+      (d, s!"{backoffIdeal minD maxD fNum fDen jit att 0 1} {backoffIdeal minD maxD fNum fDen jit att 1 1}")
+    | _, _, _, _, _, _ => (d, "bad-op")
+  | _ => (d, "bad-op")
+
+def main : IO Unit := Driver.run ({} : DSt) dstep
